@@ -366,7 +366,8 @@ def run(chk) -> None:
     for own in (w, s):
         for fn in own.methods.values():
             uses += sum(1 for c in calls(fn) if _self_call(c) in own.providers)
-    chk.floor("C21.R1", "call sites of the connection providers in both classes", uses, 12)
+    # 11 on the repaired tree (8 in the workflow store, 3 in the state store); the floor leaves room for variants that drop a few
+    chk.floor("C21.R1", "call sites of the connection providers in both classes", uses, 8)
     for own, cname in ((w, WS), (s, SS)):
         for d in close_sites(own):
             fn = d["fn"]
@@ -453,14 +454,22 @@ TWINS = [
     Twin("state store get closes after a direct read", _PS, "        state = self._load_state()\n        return get_by_path(state, path, default)",
          "        conn = self._shared_conn or sqlite3.connect(self._db_path)\n        try:\n            state = self._load_state()\n        finally:\n            conn.close()\n"
          "        return get_by_path(state, path, default)", "C21.R1"),
+    Twin("pre-fix: release helper closes whatever it is given", _PS, "        if conn is not self._shared_conn:\n            conn.close()", "        conn.close()", "C21.R1"),
+    Twin("pre-fix: copy_state closes the provider's connection", _PS, "            conn.commit()\n        finally:\n            self._release(conn)\n\n    def _serialize_state",
+         "            conn.commit()\n        finally:\n            conn.close()\n\n    def _serialize_state", "C21.R1"),
+    Twin("pre-fix: load_state closes the provider's connection", _PS, "            return self._deserialize_state(row[0])\n        finally:\n            self._release(conn)",
+         "            return self._deserialize_state(row[0])\n        finally:\n            conn.close()", "C21.R1"),
+    Twin("pre-fix: save_state closes what it obtained, not what it owns", _PS, "            if should_close:\n                self._release(conn)", "            if should_close:\n                conn.close()", "C21.R1"),
+    Twin("release guard inverted", _PS, "        if conn is not self._shared_conn:\n            conn.close()", "        if conn is self._shared_conn:\n            conn.close()", "C21.R1"),
     # ---- R1 benign
     Twin("benign: state-store provider reversed", _PS, "        if self._shared_conn is not None:\n            return self._shared_conn\n        return sqlite3.connect(self._db_path, timeout=30.0)",
          "        if self._shared_conn is None:\n            return sqlite3.connect(self._db_path, timeout=30.0)\n        return self._shared_conn", None),
     Twin("benign: query uses execute().fetchall()", _PW, "        with self._connect() as conn:\n            cursor = conn.cursor()\n            cursor.execute(sql, tuple(params))\n            rows = cursor.fetchall()\n\n        return [_row",
          "        with self._connect() as conn:\n            rows = conn.execute(sql, tuple(params)).fetchall()\n\n        return [_row", None),
-    Twin("benign: copy_state closes only an own connection (repair form 1)", _PS, "            conn.commit()\n        finally:\n            conn.close()\n\n    def _serialize_state",
-         "            conn.commit()\n        finally:\n            if self._shared_conn is None:\n                conn.close()\n\n    def _serialize_state", None),
-    Twin("benign: copy_state closes unless identical to the shared one (repair form 2)", _PS, "            conn.commit()\n        finally:\n            conn.close()\n\n    def _serialize_state",
+    Twin("benign: release guard tests the borrowed attribute", _PS, "        if conn is not self._shared_conn:\n            conn.close()", "        if self._shared_conn is None:\n            conn.close()", None),
+    Twin("benign: release guard in early-return form", _PS, "        if conn is not self._shared_conn:\n            conn.close()",
+         "        if conn is self._shared_conn:\n            return\n        conn.close()", None),
+    Twin("benign: copy_state closes inline under an ownership test", _PS, "            conn.commit()\n        finally:\n            self._release(conn)\n\n    def _serialize_state",
          "            conn.commit()\n        finally:\n            if conn is not self._shared_conn:\n                conn.close()\n\n    def _serialize_state", None),
     Twin("benign: owner gets a lifecycle close()", _PW, "    def create_state_store(\n        self,\n        run_id: str,",
          "    def close(self) -> None:\n        if self._persistent_conn is not None:\n            self._persistent_conn.close()\n\n    def create_state_store(\n        self,\n        run_id: str,", None),
